@@ -240,7 +240,7 @@ def run(ctx):
                 "nested/overlapping/disjoint port sets; cycles 1, 2, 0.5; alternative assignments; "
                 "throughput-0 form; comment and label lines) plus a model with load/store "
                 "multipliers; each kernel observed after uniform assignment, one and two "
-                "optimisation passes; (b) on shipped models (quick: zen1, icx, tx2, a64fx; thorough: "
+                "optimisation passes; (b) on shipped models (quick: zen1, icx, snb, tx2, a64fx; thorough: "
                 "all): one synthesised instruction per distinct micro-op list (thorough: per "
                 "entry), all kernels of length 1 and all ordered pairs over at most 40 of them, "
                 "against the micro-op list of the entry selected by the reference matcher; "
